@@ -40,6 +40,10 @@ CLAIMED = {
         text="Lean 4 proofs over a model of OperationRegistry (filter on the base id during ingestion, uniquifying suffixes, common-affix trimming over the filtered set): selection is whole-identifier list membership, --exclude is the complement of --only, and (select_exact) when base ids are pairwise distinct and trimming is the identity on every sub-selection, `list` prints the base ids and --only/--exclude select exactly the listed rows, each once; counter-example theorems exhibit the configurations where today's code breaks the property. Tied to the code by comparing the model with OperationRegistry::with_filters on random operation sets and by running the REAL binary: `list operations`, then `generate --only/--exclude S` for subsets S of the printed ids, mapping emitted methods back to (METHOD, path).",
         note="Trusted: Lean kernel; regex parsing of the CLI table; doc lines to identify methods. Known findings: trimmed ids are not accepted by the filter, uniquified ids, silently dropped operations, trimming to a non-identifier (panic).",
         ref="§6 C08"),
+    "C11": dict(
+        text="Lean 4 proof, over a table REGENERATED from the sources on every run, that every iteration over a HashMap/HashSet in non-test generator code is one of the four justified ones (adding an iteration over a hash container breaks the proof), plus permutation-invariance of the sorted-map construction that models the parser's BTreeMaps; the remaining truth lives in the YAML front end and the process hash seed, so the check runs the REAL binary on shipped fixtures and generated specs across modes and compares the output byte for byte between the base document, a fresh re-run, random key-order permutations at every object level, YAML and key-permuted YAML.",
+        note="Partial by nature: proof covers the hash-iteration site table and the order-insensitivity of map construction; `output = f(parsed spec)` for the whole generator is validated by the CLI comparison, not proved. Known finding: object-valued examples are rendered in input key order.",
+        ref="§6 C11"),
 }
 PENDING = ["C01","C02","C03","C04","C05","C06","C07","C08","C10","C11","C12","C13","C14","C15","C16","C17","C18","C19","C20"]
 
